@@ -15,9 +15,10 @@ Tr == ndJsonDeserialize(TraceFile)
 VARIABLES l, bad, stats,
           done,     \* request id -> [visited, veto, ev] recorded when its lock was released
           upd,      \* uid -> [calls, failed, err] of the update callback
-          vetoer    \* plugin whose handler announced an error for the current request ("" = none)
+          vetoer,   \* plugin whose handler announced an error for the current request ("" = none)
+          lim       \* [np, tmo]: number of plugins and request timeout (ms) of the run
 
-tvars == <<rvars, l, bad, stats, done, upd, vetoer>>
+tvars == <<rvars, l, bad, stats, done, upd, vetoer, lim>>
 E == Tr[l]
 
 Bump(c) == [stats EXCEPT ![c] = @ + 1]
@@ -25,6 +26,7 @@ Bump(c) == [stats EXCEPT ![c] = @ + 1]
 TraceInit ==
   /\ RInit
   /\ l = 1 /\ bad = <<>> /\ done = [r \in {} |-> 0] /\ upd = [u \in {} |-> 0] /\ vetoer = ""
+  /\ lim = [np |-> 0, tmo |-> 0]
   /\ stats = [scenarios |-> 0, events |-> 0, requests |-> 0, deliveries |-> 0, activations |-> 0,
               creations |-> 0, updates |-> 0, vetoes |-> 0, closes |-> 0, rejected |-> 0]
 
@@ -39,16 +41,17 @@ Reject(label, detail) ==
   /\ bad' = Append(bad, [scn |-> E.scn, line |-> l, labels |-> {label}, detail |-> detail])
   /\ l' = E.nb
   /\ stats' = Bump("rejected")
-  /\ UNCHANGED <<rvars, done, upd, vetoer>>
+  /\ UNCHANGED <<rvars, done, upd, vetoer, lim>>
 
-Skip == /\ l' = l + 1 /\ UNCHANGED <<rvars, bad, stats, done, upd, vetoer>>
+Skip == /\ l' = l + 1 /\ UNCHANGED <<rvars, bad, stats, done, upd, vetoer, lim>>
 Step(c) == /\ l' = l + 1 /\ stats' = Bump(c) /\ UNCHANGED bad
-Keep == UNCHANGED <<done, upd, vetoer>>
+Keep == UNCHANGED <<done, upd, vetoer, lim>>
 
 SetOf(s) == {s[i] : i \in DOMAIN s}
 
 \* ------------------------------------------------------------------ events --
 TBegin == /\ Reset /\ l' = l + 1 /\ stats' = Bump("scenarios") /\ UNCHANGED bad
+          /\ lim' = [np |-> E.plugins, tmo |-> E.timeout_ms]
 
 TSyncRequest ==
   IF Known(E.p) THEN Reject("C17-duplicate-registration", <<E.p>>)
@@ -118,7 +121,7 @@ TStoreAdd ==
 TLockedRequest ==
   IF rlock # "" THEN Reject("C19-lock-overlap", <<E.req, rlock>>)
   ELSE /\ Lock(E.req, "request", E.req, E.event, E.ctr)
-       /\ Step("requests") /\ vetoer' = "" /\ UNCHANGED <<done, upd>>
+       /\ Step("requests") /\ vetoer' = "" /\ UNCHANGED <<done, upd, lim>>
 
 \* why a delivery is not explained by the specification
 DeliverLabel(p) ==
@@ -129,7 +132,7 @@ DeliverLabel(p) ==
   ELSE IF cur.ev # E.event THEN "C06-wrong-handler"
   ELSE IF cur.ev \notin mask[p] THEN "C06-unsubscribed"
   ELSE IF p \in SeqSet(cur.visited) THEN "C06-duplicate"
-  ELSE IF cur.veto THEN "C07-invoked-after-veto"
+  ELSE IF cur.veto = "yes" THEN "C07-invoked-after-veto"
   ELSE IF p \in dead /\ cin[p] # cur.id THEN "C07-delivered-after-drop"
   ELSE IF ~\E j \in DOMAIN cur.plist : cur.plist[j] = p /\ NextTarget(j) THEN "C06-order"
   ELSE ""
@@ -148,9 +151,9 @@ TRecv ==
 \* a handler announces that it fails the request deliberately
 TReply ==
   IF ~(rlock # "" /\ cur.op = "request" /\ cur.id = E.req /\ Len(cur.visited) > 0
-       /\ cur.visited[Len(cur.visited)] = E.p /\ ~cur.veto)
+       /\ cur.visited[Len(cur.visited)] = E.p /\ cur.veto = "no")
   THEN (IF LateOfDropped(E.p, E.req) THEN Skip ELSE Reject("C07-veto-unexpected", <<E.p, E.req>>))
-  ELSE Veto /\ Step("vetoes") /\ vetoer' = E.p /\ UNCHANGED <<done, upd>>
+  ELSE Veto /\ Step("vetoes") /\ vetoer' = E.p /\ UNCHANGED <<done, upd, lim>>
 
 TUnlockingRequest ==
   IF rlock # E.req THEN Reject("C19-unlock-unexpected", <<E.req>>)
@@ -158,7 +161,7 @@ TUnlockingRequest ==
        THEN Reject("C06-missed", <<E.req, {cur.plist[k] : k \in {j \in (cur.pos + 1)..Len(cur.plist) : MustVisit(j)}}>>)
   ELSE /\ Unlock(E.req) /\ Step("events")
        /\ done' = Ext(done, E.req, [visited |-> cur.visited, veto |-> cur.veto, ev |-> cur.ev])
-       /\ UNCHANGED <<upd, vetoer>>
+       /\ UNCHANGED <<upd, vetoer, lim>>
 
 TClosed ==
   IF E.p \in dead THEN Skip
@@ -171,10 +174,13 @@ WantTags(r) ==
   ELSE {}
 TRet ==
   LET r == E.req IN
-  IF r \notin DOMAIN done THEN Reject("C06-return-without-relay", <<r>>)
-  ELSE IF done[r].veto /\ ~E.err THEN Reject("C07-veto-ignored", <<r>>)
-  ELSE IF done[r].veto /\ ~E.veto THEN Reject("C07-veto-error-changed", <<r, E.errtext>>)
-  ELSE IF ~done[r].veto /\ E.err THEN Reject("C07-request-failed", <<r, E.errtext>>)
+  IF E.hung THEN Reject("C07-request-hung", <<r>>)
+  \* completes within (number of plugins) x (request timeout) plus scheduling slack (2 s)
+  ELSE IF E.ms > lim.np * lim.tmo + 2000 THEN Reject("C07-latency", <<r, E.ms>>)
+  ELSE IF r \notin DOMAIN done THEN Reject("C06-return-without-relay", <<r>>)
+  ELSE IF done[r].veto = "yes" /\ ~E.err THEN Reject("C07-veto-ignored", <<r>>)
+  ELSE IF done[r].veto # "no" /\ E.err /\ ~E.veto THEN Reject("C07-veto-error-changed", <<r, E.errtext>>)
+  ELSE IF done[r].veto = "no" /\ E.err THEN Reject("C07-request-failed", <<r, E.errtext>>)
   ELSE IF ~E.err /\ ~(SetOf(E.tags) \subseteq WantTags(r)) THEN Reject("C06-result-foreign", <<r, E.tags>>)
   \* a plugin that was dropped during the request may or may not have contributed
   ELSE IF ~E.err /\ \E t \in WantTags(r) \ SetOf(E.tags) :
@@ -191,12 +197,12 @@ TUpdEnter ==
   IF ~(rlock = "u:" \o E.uid /\ cur.op = "update") THEN Reject("C19-callback-outside-lock", <<E.uid, rlock>>)
   ELSE IF E.uid \in DOMAIN upd THEN Reject("C19-callback-twice", <<E.uid>>)
   ELSE /\ upd' = Ext(upd, E.uid, [ids |-> E.ids, failed |-> <<>>, err |-> FALSE, left |-> FALSE])
-       /\ l' = l + 1 /\ UNCHANGED <<rvars, bad, stats, done, vetoer>>
+       /\ l' = l + 1 /\ UNCHANGED <<rvars, bad, stats, done, vetoer, lim>>
 
 TUpdLeave ==
   IF ~(rlock = "u:" \o E.uid /\ E.uid \in DOMAIN upd) THEN Reject("C19-callback-outside-lock", <<E.uid>>)
   ELSE /\ upd' = [upd EXCEPT ![E.uid] = [@ EXCEPT !.failed = E.failed, !.err = E.err, !.left = TRUE]]
-       /\ l' = l + 1 /\ UNCHANGED <<rvars, bad, stats, done, vetoer>>
+       /\ l' = l + 1 /\ UNCHANGED <<rvars, bad, stats, done, vetoer, lim>>
 
 TUnlockingUpdate ==
   IF ~(rlock # "" /\ cur.op = "update") THEN Reject("C19-unlock-unexpected", <<>>)
